@@ -35,11 +35,7 @@ Theorem C14_window : forall n b p rf q i, 0 < n -> 0 < b ->
   NoDup (replica_indices RfWide n b rf q) /\
   (forall j, In j (replica_indices RfWide n b rf q) -> j < n) /\
   (In q (topo_assigned n b p rf i) <-> q < p /\ In i (replica_indices RfWide n b rf q)).
-Proof.
-  intros n b p rf q i Hn Hb. split; [exact (replica_indices_length RfWide n b rf q)|].
-  split; [exact (replica_indices_NoDup RfWide n b rf q Hn)|].
-  split; [exact (fun j => replica_indices_lt RfWide n b rf q j Hn)|exact (topo_assigned_In n b p rf i q Hn Hb)].
-Qed.
+Proof. exact window_facts. Qed.
 
 (* two managers (of the same node or of different nodes) that know the same live members hold the same
    replica lists and return the same coordinator order for every partition, whatever their histories *)
